@@ -18,6 +18,8 @@ mod number_tracker;
 pub mod partial;
 #[cfg(feature = "serde")]
 mod serde;
+#[cfg(exmex_verif)]
+pub use self::number_tracker::NumberTracker as VerifNumberTracker;
 
 /// Expressions implementing this trait can be parsed from stings,
 /// evaluated for specific variable values, and unparsed, i.e.,
